@@ -281,9 +281,10 @@ theorem ylyCtxOf_ds (r : Rule) (p : Inst) (nti : Nat) (hr : WfRule r) (hp : WfIn
   · have := hr.dom d (mem_take _ _ _ hd); omega
 /-- C16 (sane instants), as far as it holds: every instant written is a real date between 1601 and 2100 with a
 proper time of day — provided `shift()` keeps dates real for this rule's SHIFT (`ShiftKeepsDates`, which holds
-without a SHIFT) and an all-day seed gets no minutes or seconds (`AllDayOk`) -/
+without a SHIFT).  (Next to an all-day seed `make_enum` ignores BYHOUR / BYMINUTE / BYSECOND, so no proviso on the
+kind of the seed is needed.) -/
 theorem fillYly_wf (r : Rule) (p : Inst) (n : Nat) (l : List Inst) (hr : WfRule r) (hp : WfInst p)
-    (hs : ShiftKeepsDates r.shift) (had : AllDayOk r p) (h : fillYly r p n = some l) : ∀ x ∈ l, WfInst x := by
+    (hs : ShiftKeepsDates r.shift) (h : fillYly r p n = some l) : ∀ x ∈ l, WfInst x := by
   rcases fillYly_some r p n l h with rfl | ⟨nti, _, rfl⟩
   · exact fun x hx => (nomatch hx)
   · have hc : ∀ y, AllVC y (ylyCand (ylyCtxOf r p nti) y) := fun y =>
@@ -294,7 +295,7 @@ theorem fillYly_wf (r : Rule) (p : Inst) (n : Nat) (l : List Inst) (hr : WfRule 
       (fun y st hy hJ => by
         have he := finishPeriod_emits (ylyCtxOf r p nti).k y (ylyCand (ylyCtxOf r p nti) y) st
         refine he.inv (fun x hx _ h2 => ?_) hJ
-        exact finE_wf _ y _ hy (hc y) hs (times_ok r p hr hp had) hp.year x hx h2)
+        exact finE_wf _ y _ hy (hc y) hs (times_ok r p hr hp) hp.year x hx h2)
       (64 * (nti + 1) + 2101) (ylyStart r p) 64 {} (fun x hx => nomatch hx)
     exact fun x hx => hJ x (List.mem_reverse.mp hx)
 
@@ -343,45 +344,29 @@ theorem fillYly_asc (r : Rule) (p : Inst) (n : Nat) (l : List Inst) (hr : WfRule
         exact ⟨he.base hJ.1, he.desc hs hJ.1 hJ.2⟩)
       (64 * (nti + 1) + 2101) (ylyStart r p) 64 {} ⟨Base.init _, List.Pairwise.nil⟩
     exact hJ.2
-/-- C16 / C09 for one call of the yearly filler, under the two provisos of `fillYly_wf`:
+/-- C16 / C09 for one call of the yearly filler, under the proviso of `fillYly_wf`:
 * `hs : ShiftKeepsDates r.shift` — `shift()` maps real dates of a year ≤ 2099 to real dates of the year their set is
-  emitted under (true for SHIFT absent, `shiftKeepsDates_zero`; false for large shifts, e.g. SHIFT=-672);
-* `had : AllDayOk r p` — an all-day seed without BYHOUR gets no non-zero BYMINUTE / BYSECOND.
-Both are needed for `wf` only; see `fillYly_ok_counterexample`. -/
+  emitted under (true for SHIFT absent, `shiftKeepsDates_zero`; false for large shifts, e.g. SHIFT=-672).
+It is needed for `wf` only; see `fillYly_ok_counterexample`. -/
 theorem fillYly_ok_partial (r : Rule) (p : Inst) (n : Nat) (l : List Inst) (hr : WfRule r) (hp : WfInst p) (_hn : n ≤ 64)
-    (hs : ShiftKeepsDates r.shift) (had : AllDayOk r p) (h : fillYly r p n = some l) : FillOk r p n l :=
+    (hs : ShiftKeepsDates r.shift) (h : fillYly r p n = some l) : FillOk r p n l :=
   { len_nti := (fillYly_len r p n l hr h).1
     len_count := (fillYly_len r p n l hr h).2
-    wf := fillYly_wf r p n l hr hp hs had h
+    wf := fillYly_wf r p n l hr hp hs h
     ge_proto := (fillYly_bounds r p n l h).1
     le_until := (fillYly_bounds r p n l h).2
     ascending := fillYly_asc r p n l hr hp h }
 
-theorem AllDayOk.of_timed (r : Rule) (p : Inst) (h : p.H ≠ allDay) : AllDayOk r p := fun h' => absurd h' h
-theorem AllDayOk.of_plain (r : Rule) (p : Inst) (hM : r.M = []) (hS : r.S = []) : AllDayOk r p :=
-  fun _ _ => ⟨fun m hm => (by rw [hM] at hm; cases hm), fun s hs' => (by rw [hS] at hs'; cases hs')⟩
-
-/-- the full statement for rules without SHIFT whose seed has a time of day (or that have no BYMINUTE / BYSECOND) -/
+/-- the full statement for rules without SHIFT -/
 theorem fillYly_ok_noshift (r : Rule) (p : Inst) (n : Nat) (l : List Inst) (hr : WfRule r) (hp : WfInst p) (hn : n ≤ 64)
-    (hs : r.shift = 0) (had : AllDayOk r p) (h : fillYly r p n = some l) : FillOk r p n l :=
-  fillYly_ok_partial r p n l hr hp hn (hs ▸ shiftKeepsDates_zero) had h
+    (hs : r.shift = 0) (h : fillYly r p n = some l) : FillOk r p n l :=
+  fillYly_ok_partial r p n l hr hp hn (hs ▸ shiftKeepsDates_zero) h
 
-/-- `fillYly_ok` as first stated (without the provisos) is false: FREQ=YEARLY;BYMINUTE=30 on an all-day seed
-yields instants with hour 255 (all-day) and minute 30 -/
-theorem fillYly_ok_counterexample :
-    ¬ ∀ (r : Rule) (p : Inst) (n : Nat) (l : List Inst), WfRule r → WfInst p → n ≤ 64 → fillYly r p n = some l →
-      FillOk r p n l := by
-  intro hall
-  have hr : WfRule { freq := 1, M := [30] } :=
-    { scale := rfl, inter := by decide, count := by decide, hours := ⟨List.Pairwise.nil, by decide⟩, mins := ⟨List.pairwise_singleton _ _, by decide⟩,
-      secs := ⟨List.Pairwise.nil, by decide⟩, mon := ⟨List.Pairwise.nil, by decide⟩, dom := by decide, doy := by decide, wk := by decide, dow := by decide, pos := by decide,
-      easter := by decide, shift := by decide }
-  have hp : WfInst { y := 2000, m := 1, d := 1, H := 255, M := 0, S := 0, ms := 0 } :=
-    { year := by decide, month := by decide, day := by decide, time := by decide, ms := by decide }
-  have h := hall _ _ 1 [{ y := 2000, m := 1, d := 1, H := 255, M := 30, S := 0, ms := 0 }] hr hp (by decide) (by decide +kernel)
-  have := (h.wf _ List.mem_cons_self).time
-  revert this
-  decide
+/-- FREQ=YEARLY;BYMINUTE=30 on an all-day seed: BYMINUTE is ignored next to a DATE value (RFC 5545, 3.3.10), the
+filler writes the plain all-day instant (before the repair of `make_enum`: hour 255 with minute 30) -/
+theorem fillYly_allDay_byminute :
+    fillYly { freq := 1, M := [30] } { y := 2000, m := 1, d := 1, H := 255, M := 0, S := 0, ms := 0 } 1 =
+    some [{ y := 2000, m := 1, d := 1, H := 255, M := 0, S := 0, ms := 0 }] := by decide +kernel
 
 /-- `ShiftKeepsDates` does fail for shifts that reach beyond the neighbouring year: SHIFT=-672 takes 2022-01-01 to
 2020-02-29, which is filed under "previous year" and so stands for 2021-02-29 -/
@@ -398,6 +383,20 @@ theorem fillYly_shift_counterexample :
     fillYly { freq := 1, shift := -672 * 65536, mon := [1], dom := [1] }
       { y := 2021, m := 1, d := 1, H := 255, M := 0, S := 0, ms := 0 } 1 =
     some [{ y := 2021, m := 2, d := 29, H := 255, M := 0, S := 0, ms := 0 }] := by decide +kernel
+
+/-- `fillYly_ok` as first stated (without the proviso) is false: that call writes 2021-02-29 -/
+theorem fillYly_ok_counterexample :
+    ¬ ∀ (r : Rule) (p : Inst) (n : Nat) (l : List Inst), WfRule r → WfInst p → n ≤ 64 → fillYly r p n = some l →
+      FillOk r p n l := by
+  intro hall
+  have hr : WfRule { freq := 1, shift := -672 * 65536, mon := [1], dom := [1] } := by
+    constructor <;> simp [Asc]
+  have hp : WfInst { y := 2021, m := 1, d := 1, H := 255, M := 0, S := 0, ms := 0 } :=
+    { year := by decide, month := by decide, day := by decide, time := by decide, ms := by decide }
+  have h := hall _ _ 1 _ hr hp (by decide) fillYly_shift_counterexample
+  have := (h.wf _ List.mem_cons_self).day
+  revert this
+  decide
 
 /-- … or a year out of range: INTERVAL=1601 with a forward day part makes the loop start in year 0, a backward
 business-day part then reaches "the year before" -/
